@@ -98,12 +98,11 @@ func iterateShared(fn subscription.IterateFn, options subscription.IterationOpti
 	}
 	// 查询指定clientID下的所有topic
 	if options.ClientID != "" {
-		for _, v := range index[options.ClientID] {
-			for _, c := range v.shared {
-				if sub, ok := c[options.ClientID]; ok {
-					if !fn(options.ClientID, sub) {
-						return false
-					}
+		for key, v := range index[options.ClientID] {
+			shareName, _ := splitSharedIndexKey(key)
+			if sub, ok := v.shared[shareName][options.ClientID]; ok {
+				if !fn(options.ClientID, sub) {
+					return false
 				}
 			}
 		}
@@ -288,7 +287,8 @@ func (db *TrieDB) SubscribeLocked(clientID string, subscriptions ...*gmqtt.Subsc
 				db.clientStats[clientID] = &subscription.Stats{}
 			}
 		}
-		if _, ok := index[clientID][topicName]; !ok {
+		indexKey := sharedIndexKey(sub.ShareName, topicName)
+		if _, ok := index[clientID][indexKey]; !ok {
 			db.stats.SubscriptionsTotal++
 			db.stats.SubscriptionsCurrent++
 			db.clientStats[clientID].SubscriptionsTotal++
@@ -296,7 +296,7 @@ func (db *TrieDB) SubscribeLocked(clientID string, subscriptions ...*gmqtt.Subsc
 		} else {
 			rs[k].AlreadyExisted = true
 		}
-		index[clientID][topicName] = node
+		index[clientID][indexKey] = node
 	}
 	return rs
 }
@@ -326,11 +326,12 @@ func (db *TrieDB) UnsubscribeLocked(clientID string, topics ...string) {
 			topicTrie = db.userTrie
 		}
 		if _, ok := index[clientID]; ok {
-			if _, ok := index[clientID][topic]; ok {
+			indexKey := sharedIndexKey(shareName, topic)
+			if _, ok := index[clientID][indexKey]; ok {
 				db.stats.SubscriptionsCurrent--
 				db.clientStats[clientID].SubscriptionsCurrent--
 			}
-			delete(index[clientID], topic)
+			delete(index[clientID], indexKey)
 		}
 		topicTrie.unsubscribe(clientID, topic, shareName)
 	}
@@ -359,11 +360,42 @@ func (db *TrieDB) unsubscribeAll(index map[string]map[string]*topicNode, clientI
 	delete(index, clientID)
 }
 
+// sharedIndexKey returns the key of a subscription in its index: the topic filter for a
+// non-shared subscription, "shareName/topicFilter" for a shared one (a share name never contains "/").
+func sharedIndexKey(shareName, topicFilter string) string {
+	if shareName == "" {
+		return topicFilter
+	}
+	return shareName + "/" + topicFilter
+}
+
+func splitSharedIndexKey(key string) (shareName, topicFilter string) {
+	s := strings.SplitN(key, "/", 2)
+	if len(s) < 2 {
+		return "", key
+	}
+	return s[0], s[1]
+}
+
+// unsubscribeAllShared removes the client from every share group it has joined,
+// leaving the other members of those groups untouched.
+func (db *TrieDB) unsubscribeAllShared(clientID string) {
+	db.stats.SubscriptionsCurrent -= uint64(len(db.sharedIndex[clientID]))
+	if db.clientStats[clientID] != nil {
+		db.clientStats[clientID].SubscriptionsCurrent -= uint64(len(db.sharedIndex[clientID]))
+	}
+	for key := range db.sharedIndex[clientID] {
+		shareName, topicFilter := splitSharedIndexKey(key)
+		db.sharedTrie.unsubscribe(clientID, topicFilter, shareName)
+	}
+	delete(db.sharedIndex, clientID)
+}
+
 // UnsubscribeAllLocked is the non thread-safe version of UnsubscribeAll
 func (db *TrieDB) UnsubscribeAllLocked(clientID string) {
 	db.unsubscribeAll(db.userIndex, clientID)
 	db.unsubscribeAll(db.systemIndex, clientID)
-	db.unsubscribeAll(db.sharedIndex, clientID)
+	db.unsubscribeAllShared(clientID)
 }
 
 // UnsubscribeAll delete all subscriptions of the client
